@@ -95,7 +95,7 @@ def unit_c07_sweep():
                 if v_obs != reported: return {"expected": "validate() %s" % ("raises" if reported else "passes"), "observed": "raises" if v_obs else "passes"}
                 # command line --until (sampled: every 7th case, files on disk)
                 cli_count[0] += 1
-                if cli_count[0] % 7 == 0 or ctx.thorough:
+                if cli_count[0] % 3 == 0 or u == 0 or ctx.thorough:
                     cp = os.path.join(tmp, "cid.csv"); dp = os.path.join(tmp, "data.csv")
                     with open(cp, "w", encoding="utf-8") as f: f.write(cid_text(h))
                     with open(dp, "w", encoding="cp1252", newline="") as f: f.write(text)
@@ -107,7 +107,7 @@ def unit_c07_sweep():
                         if rc != (1 if reported else 0): return {"expected": "--until -1 behaves like no limit", "observed": "exit %r" % rc}
                 return None
             return [sweep("C07/sweep/header and limit window through rows(), validate() and --until", cases(), check, "bounded",
-                          "header 0-3 x tables of 0-4 rows x a single bad row at every position (or none) x limit in {none, 0..rows+1} x both APIs; command line --until on every 7th case (all in thorough)",
+                          "header 0-3 x tables of 0-4 rows x a single bad row at every position (or none) x limit in {none, 0..rows+1} x both APIs; command line --until on every 3rd case and every --until 0 case (all in thorough)",
                           describe=lambda c: {"header": c[0], "rows": c[1], "bad_row": c[2], "validate_until": c[3]}, function="validio.rows / validio.validate / applications.main", unit="C07.sweep")]
         finally:
             shutil.rmtree(tmp, ignore_errors=True)
